@@ -21,6 +21,7 @@ import (
 	"fmt"
 	"net/http"
 	"net/http/httptest"
+	"os"
 	"runtime"
 	"sort"
 	"strings"
@@ -76,9 +77,9 @@ type ConcResult struct {
 	Locks      []ConcLock        `json:"locks"`
 	Edges      []ConcEdge        `json:"edges"`
 	ClassEdges map[string]uint64 `json:"class_edges"`
-	Cycle      []ConcEdge        `json:"cycle,omitempty"` // an offending cycle of the nesting relation with labels and call sites
+	Cycle      []ConcEdge        `json:"cycle,omitempty"`              // an offending cycle of the nesting relation with labels and call sites
 	Excused    [][]string        `json:"single_role_cycles,omitempty"` // lock groups nested cyclically by ONE single-goroutine role only (harmless)
-	Rank       map[int]int       `json:"rank,omitempty"` // rank certificate (levels of the condensation) when the relation is cyclic
+	Rank       map[int]int       `json:"rank,omitempty"`               // rank certificate (levels of the condensation) when the relation is cyclic
 	Reentries  []ConcReentry     `json:"reentries,omitempty"`
 	Counters   map[string]uint64 `json:"counters"`
 	Blocked    []string          `json:"blocked,omitempty"` // goroutines that did not finish before the watchdog deadline
@@ -94,7 +95,7 @@ type ConcResult struct {
 }
 
 const (
-	concWatchdog   = 90 * time.Second // every driver goroutine must be done by then
+	concWatchdog   = 60 * time.Second // every driver goroutine must be done by then
 	concSettleMax  = 20 * time.Second
 	concGoDeadlock = 30 // seconds a lock may be waited for before go-deadlock reports (when enabled)
 )
@@ -352,7 +353,12 @@ func runConcCase(c *ConcCase) *ConcResult {
 	concEventsOnce.Do(func() { events.GetEventSystem().StartService() })
 	r := &concRun{d: d, c: c, reg: &concRegistry{m: map[uintptr]string{}}, confirm: make(chan CoreOp, 8192), rng: NewRng(c.YieldSeed ^ 0xC14)}
 	r.router = webservice.VerifRouter(d.core.CC)
-	if c.GoDeadlock {
+	// go-deadlock is reconfigured between runs; background goroutines of the process (event system) read its
+	// options concurrently, which the race detector reports: not toggled in race runs
+	raceRun := os.Getenv("CONC_RACE_LOG") != ""
+	if raceRun {
+		c.GoDeadlock = false
+	} else if c.GoDeadlock {
 		locking.VerifDeadlockDetection(true, concGoDeadlock, false)
 	} else {
 		locking.VerifDeadlockDetection(false, 60, true)
@@ -363,15 +369,16 @@ func runConcCase(c *ConcCase) *ConcResult {
 
 	var gos []*concGo
 	var wg sync.WaitGroup
-	spawn := func(name string, f func()) *concGo {
+	spawn := func(name string, f func(rng *Rng)) *concGo {
 		g := &concGo{name: name}
 		gos = append(gos, g)
+		rng := r.rng.Fork() // forked here: the generators are not shared between goroutines
 		wg.Add(1)
 		go func() {
 			defer wg.Done()
 			defer g.done.Store(true)
 			locking.VerifLockSetRole(name)
-			f()
+			f(rng)
 		}()
 		return g
 	}
@@ -388,8 +395,7 @@ func runConcCase(c *ConcCase) *ConcResult {
 
 	if c.Mode == "seq" {
 		// baseline: the same work from one goroutine
-		spawn("seq", func() {
-			rng := r.rng.Fork()
+		spawn("seq", func(rng *Rng) {
 			for i := range c.Ops {
 				op := &c.Ops[i]
 				// the goroutine takes the role the op has in the concurrent runs
@@ -435,8 +441,7 @@ func runConcCase(c *ConcCase) *ConcResult {
 	} else {
 		// rm: applications, allocations and the shim's confirmations, one goroutine as in the real service
 		inputs.Add(1)
-		spawn("rm", func() {
-			rng := r.rng.Fork()
+		spawn("rm", func(rng *Rng) {
 			ops := th["rm"]
 			inputDone := false
 			for i := 0; ; {
@@ -467,9 +472,8 @@ func runConcCase(c *ConcCase) *ConcResult {
 		for _, name := range []string{"node", "infra", "timer"} {
 			name := name
 			inputs.Add(1)
-			spawn(name, func() {
+			spawn(name, func(rng *Rng) {
 				defer inputs.Done()
-				rng := r.rng.Fork()
 				ops := th[name]
 				for i := range ops {
 					r.exec(name, &ops[i])
@@ -481,16 +485,15 @@ func runConcCase(c *ConcCase) *ConcResult {
 			})
 		}
 		inputs.Add(1)
-		spawn("pm", func() {
+		spawn("pm", func(rng *Rng) {
 			defer inputs.Done()
-			rng := r.rng.Fork()
 			ops := th["pm"]
 			for i := range ops {
 				r.partitionManager("pm", &ops[i])
 				time.Sleep(time.Duration(100+rng.Intn(500)) * time.Microsecond)
 			}
 		})
-		spawn("sched", func() {
+		spawn("sched", func(rng *Rng) {
 			for !stopped(stopSched) {
 				r.guard("sched", func() {
 					if d.core.Schedule() {
@@ -501,13 +504,13 @@ func runConcCase(c *ConcCase) *ConcResult {
 				runtime.Gosched()
 			}
 		})
-		spawn("shim", func() {
+		spawn("shim", func(rng *Rng) {
 			for !stopped(stopRm) {
 				r.takeEvents()
 				time.Sleep(100 * time.Microsecond)
 			}
 		})
-		spawn("bg", func() {
+		spawn("bg", func(rng *Rng) {
 			for !stopped(stopBg) {
 				r.background("bg")
 				time.Sleep(300 * time.Microsecond)
@@ -515,8 +518,7 @@ func runConcCase(c *ConcCase) *ConcResult {
 		})
 		for _, name := range []string{"rest0", "rest1"} {
 			name := name
-			spawn(name, func() {
-				rng := r.rng.Fork()
+			spawn(name, func(rng *Rng) {
 				for !stopped(stopBg) {
 					r.rest(name, rng)
 					time.Sleep(time.Duration(50+rng.Intn(300)) * time.Microsecond)
@@ -585,6 +587,7 @@ func runConcCase(c *ConcCase) *ConcResult {
 		}
 		locking.VerifDeadlockDetection(false, 60, true)
 	}
+	_ = raceRun
 	if len(res.Blocked) == 0 {
 		func() {
 			defer func() {
